@@ -264,6 +264,8 @@ def run(ck, tier):
     F = factsmod.Facts("ws")
     from . import influence as _infl
     _infl.run(ck, F, 'C09')
+    from . import mustpass as _mp
+    _mp.run(ck, F, 'C09')
     run_recursion(ck, F)
     run_obligations(ck, F)
     run_stored(ck, F)
